@@ -203,8 +203,6 @@ fn expectation(ver: Ver, kind: &str, bytes: &[u8]) -> (Expect, &'static str) {
         (Ver::V2 | Ver::V4, "Public" | "PkePublic") => {
             if n != 32 {
                 (MustReject, "wrong length")
-            } else if bytes[0] == 1 && bytes[1..].iter().all(|b| *b == 0) {
-                (MustReject, "the identity point")
             } else if !ed25519_decompressible(bytes) {
                 (MustReject, "not a curve point")
             } else {
